@@ -46,7 +46,7 @@ RENDER_MODELS["meta_youmean::suggest"] = m_suggest
 RENDER_MODELS["suggest"] = m_suggest
 
 CUTS = {
-    "meta_youmean::suggest": "typo suggestions cut (returns None); its Levenshtein kernel works on rendered names",
+    "meta_youmean::suggest": "typo suggestions cut (returns None) in the render jobs; its distance kernel damerau_levenshtein is executed separately (youmean jobs) on a symbolic typed word of <= 4 (quick) / 6 (thorough) bytes against declared ASCII and non-ASCII names",
     "meta_help::render_help": "help rendering replaced by an opaque document",
     "from_os_str::parse_os_str": "conversion = uninterpreted validity predicate",
     "env::var_os": "symbolic environment",
@@ -333,6 +333,9 @@ def make_jobs(tier, seed, build):
             j["id"] = "loop:" + j["id"]
             j["kind"] = "loop"
             jobs.append(j)
+    for la in range(1, (4 if tier == "quick" else 6) + 1):
+        for gname, name in YOUMEAN_NAMES:
+            jobs.append({"id": "youmean:%d:%s" % (la, name), "kind": "youmean", "la": la, "grammar": gname, "name": name, "weight": la})
     d = tok.Decl("a", "b")
     for which in ("adjacently_available_from", "adjacent_scope", "ranges_next", "adjacent_eval"):
         for n in range(0, (2 if tier == "quick" else 3) + 1):
@@ -346,8 +349,63 @@ def make_jobs(tier, seed, build):
     return jobs
 
 
+YOUMEAN_NAMES = [("c1", "add"), ("c1", "--verbose"), ("c1", "rm"), ("un", "--gr\u00f6\u00dfe"), ("un", "s\u00fcd")]
+YOUMEAN_ALPHA = [0x61, 0x64, 0x2D, 0xC3, 0xBC, 0x9F]  # a d - and the bytes of u-umlaut / sharp s
+
+
+def run_youmean_job(job, build):
+    """the typo suggester's distance kernel (cut in the render jobs) on a symbolic typed word: valid
+    UTF-8 of `la` bytes over YOUMEAN_ALPHA against one declared name; no panic, no bound exhausted"""
+    from mirsym import textmodels as TM
+    from .C02 import new_text_exec
+    prog = tok.load_program(build, "none")
+    ex = new_text_exec(prog, step_budget=3000000)
+    la, gname, name = job["la"], job["grammar"], job["name"]
+    out = {"stats": None, "cex": [], "inconclusive": [], "samples": [], "nontrivial": 0, "obligations": 0}
+
+    def harness(ex):
+        bs = [ex.fresh("b", 8) for _ in range(la)]
+        for b in bs:
+            ex.assume(z3.Or(*[b == a for a in YOUMEAN_ALPHA]))
+        if not TM.utf8_valid(ex, bs):
+            raise Infeasible()
+        ex.youmean_bytes = bs
+        a = Ref(Cell(BStr(tuple(bs)), "a"), ())
+        b = Ref(Cell(name, "b"), ())
+        return ex.call(parse_callee("meta_youmean::damerau_levenshtein"), [a, b])
+
+    def on_path(ex, r):
+        out["obligations"] += 1
+        if ex.pc:
+            out["nontrivial"] += 1
+        if r.kind != "ok":
+            m = ex.model()
+            text = bytes(m.eval(b, model_completion=True).as_long() for b in ex.youmean_bytes)
+            out["cex"].append({"kind": "suggest-panics", "info": str(r.info), "grammar": gname, "argv_hex": [text.hex()], "shape": [name, text.hex()]})
+        elif len(out["samples"]) < 1:
+            m = ex.model()
+            text = bytes(m.eval(b, model_completion=True).as_long() for b in ex.youmean_bytes)
+            out["samples"].append({"typed": text.decode("utf-8", "replace"), "name": name, "distance": str(r.value)})
+    try:
+        ex.explore(harness, on_path, max_paths=200000)
+    except (Unmodelled, BoundExceeded, ExecError) as e:
+        out["inconclusive"].append("%s %s [%s]" % (type(e).__name__, e, "/".join(ex.callstack[-3:])))
+    out["stats"] = dict(ex.stats)
+    out["models_used"] = dict(ex.model_hits)
+    out["fn_hits"] = dict(ex.fn_hits)
+    if out["cex"]:
+        from .framework import Replayer
+        got = Replayer(build["sets"]["none"]["replay"]).run([(c["grammar"], [bytes.fromhex(h) for h in c["argv_hex"]], {}) for c in out["cex"]])
+        for c, (cls, pay) in zip(out["cex"], got):
+            c["native"] = [cls, pay[:300]]
+            c["reproduced"] = cls == "panic"
+    return out
+
+
 def run_job(job, build):
     k = job["kind"]
+    if k == "youmean":
+        return run_youmean_job(job, build)
     if k == "render":
         return run_render_job(job, build)
     if k == "pure":
@@ -386,6 +444,13 @@ def finish(results, jobs, build, out, tier, seed, wall):
                     out.violation(c.get("finding_key") or ("complete:%s:%s" % (c["rev"], c["named"])), what, c)
                 else:
                     out.inconc("NONREPRO " + what)
+            elif kind == "youmean":
+                what = "typo suggestion for the unknown item %r against the declared name %r panics: %s (native, grammar %s: %s)" % (
+                    bytes.fromhex(c["argv_hex"][0]).decode("utf-8", "replace"), c["shape"][0], c["info"], c["grammar"], c.get("native"))
+                if c.get("reproduced"):
+                    out.violation("youmean:%s:%s" % (c["shape"][0], c["argv_hex"][0]), what, c)
+                else:
+                    out.inconc("NONREPRO " + what)
             elif kind == "loop":
                 if c["kind"].startswith("panic"):
                     out.violation("loop:" + c["kind"] + ":" + ",".join(c["shape"]), what, c)
@@ -393,7 +458,7 @@ def finish(results, jobs, build, out, tier, seed, wall):
             else:
                 out.violation("%s:%s" % (c["kind"], ",".join(map(str, c.get("shape", c.get("argv") or [])))), what, c)
     cov = ev["coverage"]
-    cov["other_jobs"] = {k: len([j for j in jobs if j["kind"] == k]) for k in ("pure", "complete", "loop", "kernel")}
+    cov["other_jobs"] = {k: len([j for j in jobs if j["kind"] == k]) for k in ("pure", "complete", "loop", "kernel", "youmean")}
     cov["other_paths"] = st["paths"]
     cov["purity_pairs"] = sum(r.get("pairs", 0) for r in other)
     cov["evaluations"] += st["queries"]
